@@ -262,13 +262,18 @@ def run_contour(eng, p):
 
 # ---------------------------------------------------------------- (D) logs
 class Line:
-    """a text line with a symbolic UTF-8 byte length"""
+    """a text line with a symbolic number of characters and a symbolic
+    UTF-8 byte length (chars <= bytes <= 4 * chars)"""
 
-    def __init__(self, tok, nbytes):
+    def __init__(self, tok, nbytes, nchars=None):
         self.tok, self.nbytes = tok, nbytes
+        self.nchars = nbytes if nchars is None else nchars
 
     def encode(self, enc):
         return LBytes(self.tok, self.nbytes)
+
+    def __slen__(self):
+        return self.nchars
 
 
 class LBytes:
@@ -368,8 +373,10 @@ def run_logs(eng, p):
     lines = []
     for i in range(n):
         ln = eng.int("newlen%d" % i)
+        nc = eng.int("newchars%d" % i)
         eng.assume((ln >= 0) & (ln <= 300))
-        lines.append(Line(Tok("newline", i), ln))
+        eng.assume((nc >= 0) & (nc <= ln) & (ln <= 4 * nc))
+        lines.append(Line(Tok("newline", i), ln, nc))
     with quiet():
         hw.store_log("mylog", lines)
     ds = f["logs"]["mylog"]
@@ -508,14 +515,27 @@ def replay(case, params, v):
             key = "store_feature|history-%s" % p["feat"]
         elif p["kind"] == "logs":
             m, n = p["m"], p["n"]
+            def mk(nb, nc, base):
+                # exactly nc characters and nb UTF-8 bytes (1..4 per char)
+                extra = max(0, nb - nc)
+                out = []
+                for _ in range(nc):
+                    e = min(3, extra)
+                    extra -= e
+                    out.append([base, "\u00b5", "\u20ac", "\U0001F600"][e])
+                return "".join(out)
             oldl = ["o" * int(vals.get("oldlen%d" % i, 5)) for i in range(m)]
-            newl = ["n" * int(vals.get("newlen%d" % i, 5)) for i in range(n)]
+            newl = [mk(int(vals.get("newlen%d" % i, 5)),
+                       int(vals.get("newchars%d" % i,
+                                    vals.get("newlen%d" % i, 5))), "n")
+                    for i in range(n)]
             with RTDCWriter(path, mode="reset") as hw:
                 if m:
                     hw.store_log("mylog", oldl)
                 hw.store_log("mylog", newl)
             with h5py.File(path, "r") as h:
-                got = [x.decode() for x in h["logs/mylog"][:]]
+                got = [x.decode("utf-8", errors="replace")
+                       for x in h["logs/mylog"][:]]
             if got != oldl + newl:
                 bad = [i for i, (a, b) in enumerate(zip(got, oldl + newl))
                        if a != b]
@@ -528,6 +548,8 @@ def replay(case, params, v):
                                         [len(x) for x in oldl]))
             key = "write_text|appended-line-longer-than-frozen-width|" \
                   "truncated"
+            if fails and any(len(x.encode()) != len(x) for x in newl):
+                key = "write_text|multi-byte-line|truncated"
         elif p["kind"] == "contour" and p.get("replace"):
             m, n = p["m"], p["n"]
             conts = [np.arange(10).reshape(5, 2) + 100 * i
